@@ -401,6 +401,8 @@ build_chunk_corpus(int T)
 		v.ntr   = ((var >> 2) & 1) ? (v.upper ? 2 : 1) : 0;
 		v.nch   = 1;
 		for (int a = 0; a < 6; a++) {
+			if (!T && ALL[a] == 255 && var != 0 && var != 7)
+				continue;
 			v.sz[0] = ALL[a];
 			add_stream_family(&v);
 			if (var < 2) {
@@ -413,7 +415,8 @@ build_chunk_corpus(int T)
 		for (int a = 0; a < 6; a++)
 			for (int c = 0; c < 6; c++) {
 				if (!T && (ALL[a] == 255 || ALL[c] == 255) &&
-				    !(ALL[a] == 1 || ALL[c] == 1))
+				    (!(ALL[a] == 1 || ALL[c] == 1) ||
+				        (var != 0 && var != 7)))
 					continue;
 				v.sz[0] = ALL[a];
 				v.sz[1] = ALL[c];
@@ -734,10 +737,13 @@ cfail(const char *sig, const char *fmt, ...)
 {
 	va_list ap;
 	va_start(ap, fmt);
+	char sg[120], ms[700];
+	snprintf(sg, sizeof(sg), "%s%s", sig, g_sfx);
+	vsnprintf(ms, sizeof(ms), fmt, ap);
+	vs_log("FAIL %s: %s", sg, ms);
 	if (g_nfail++ == 0) {
-		snprintf(g_sig, sizeof(g_sig), "%s%s", sig, g_sfx);
-		vsnprintf(g_msg, sizeof(g_msg), fmt, ap);
-		vs_log("FAIL %s: %s", g_sig, g_msg);
+		snprintf(g_sig, sizeof(g_sig), "%s", sg);
+		snprintf(g_msg, sizeof(g_msg), "%s", ms);
 	}
 	va_end(ap);
 }
@@ -1154,7 +1160,7 @@ typedef struct refout {
 	int    nping, ping[MAXF];
 } refout;
 
-#define STRICT_PREFIX 0 // 1: messages completed before a violation must be delivered
+#define STRICT_PREFIX 1 // 1: messages completed before a violation must be delivered
 
 static void
 ref_accept(const wcase *w, size_t maxframe, size_t recvmax, int lib_is_server,
@@ -1580,9 +1586,13 @@ check_deliveries(const wcase *w, const refout *R, const dlist *d, int cs,
 		}
 	}
 	if (d->n < R->must) {
-		cfail(segmented ? "C16:ws:segmentation" : "C16:ws:lost-message",
-		    "case %d %s: %d message(s) delivered, the reference delivers %d",
-		    cs, fd_show(w), d->n, R->must);
+		cfail(segmented           ? "C16:ws:segmentation"
+		        : R->fail_at >= 0 ? "C16:ws:lost-message:before-violation"
+		                          : "C16:ws:lost-message",
+		    "case %d %s: %d message(s) delivered, the reference delivers %d%s",
+		    cs, fd_show(w), d->n, R->must,
+		    R->fail_at >= 0 ? " complete message(s) before the violating frame"
+		                    : "");
 		return -1;
 	}
 	return 0;
@@ -2312,6 +2322,7 @@ typedef struct hcase {
 	int         cut1, cut2;
 	const char *mut;  // request line mutation (NULL = valid request)
 	const char *what;
+	const char *slug; // signature detail
 } hcase;
 static hcase *HC;
 static int    NHC, HPER;
@@ -2390,6 +2401,7 @@ h_case(int port, int cs, const hcase *h)
 	char  why[200] = "";
 	char  req[400];
 	size_t rn;
+	g_sfx = h->slug ? h->slug : "";
 	rc_open(&c, port);
 	if (h->mut) {
 		rn = (size_t) snprintf(req, sizeof(req),
@@ -2453,6 +2465,7 @@ h_case(int port, int cs, const hcase *h)
 		    emeth, h->cut1, h->cut2, st, bl, c.rl,
 		    showb(c.rb, c.rl < 16 ? c.rl : 16));
 done:
+	g_sfx = "";
 	rc_close(&c);
 }
 
@@ -2478,7 +2491,7 @@ run_http(void *arg)
 	vs_settle();
 	hcase *tab = mode ? HM : HC;
 	int    n   = mode ? NHM : NHC;
-	int    per = mode ? n : HPER;
+	int    per = mode ? 1 : HPER;
 	int    nb  = (n + per - 1) / per;
 	int    batch = vs_choose(VK_ENV, nb);
 	for (int k = 0; k < per; k++) {
@@ -2492,7 +2505,7 @@ run_http(void *arg)
 	}
 	// control: a plain valid GET still works
 	{
-		hcase ctl = { 0, -1, -1, NULL, "control" };
+		hcase ctl = { 0, -1, -1, NULL, "control", "" };
 		int   nf  = g_nfail;
 		h_case(port, 9997, &ctl);
 		if (g_nfail == nf + 1 && nf == 0)
@@ -2504,4 +2517,587 @@ run_http(void *arg)
 	nng_url_free(u);
 	batch_finish();
 	vh_fini();
+}
+
+// =====================================================================================
+// case tables
+// =====================================================================================
+static fdesc BASE[40];
+static int   NBASE, NBASE_SMALL;
+
+static void
+build_base(int T)
+{
+	static const uint32_t DL[] = { 0, 1, 125, 126 };
+	static const uint32_t CL[] = { 0, 1, 125 };
+	NBASE = 0;
+	for (int op = OP_BIN; op >= 0; op -= 2)
+		for (int fin = 1; fin >= 0; fin--)
+			for (int l = 0; l < 4; l++)
+				BASE[NBASE++] = FD(op, fin, DL[l]);
+	for (int l = 0; l < 3; l++)
+		BASE[NBASE++] = FD(OP_PING, 1, CL[l]);
+	for (int l = 0; l < 3; l++)
+		BASE[NBASE++] = FD(OP_PONG, 1, CL[l]);
+	BASE[NBASE++] = FD(OP_CLOSE, 1, 0);
+	BASE[NBASE++] = FD(OP_CLOSE, 1, 2);
+	BASE[NBASE++] = FD(OP_CLOSE, 1, 125);
+	NBASE_SMALL   = NBASE; // 25 shapes
+	if (T) {
+		for (int op = OP_BIN; op >= 0; op -= 2)
+			for (int fin = 1; fin >= 0; fin--)
+				BASE[NBASE++] = FD(op, fin, 65536);
+	}
+}
+
+static fdesc
+with(fdesc f, int rsv, int masked, int lenform)
+{
+	f.rsv     = (uint8_t) rsv;
+	f.masked  = (uint8_t) masked;
+	f.lenform = (uint8_t) lenform;
+	return f;
+}
+
+static fdesc VIOL[160];
+static int   NVIOL;
+
+static void
+build_viol(int T)
+{
+	NVIOL = 0;
+	int M = g_mask_default;
+	for (int i = 0; i < NBASE_SMALL; i++) // wrong masking on every shape
+		VIOL[NVIOL++] = with(BASE[i], 0, !M, 0);
+	fdesc rs[] = { FD(OP_BIN, 1, 1), FD(OP_BIN, 0, 1), FD(OP_CONT, 1, 1),
+		FD(OP_PING, 1, 1), FD(OP_PONG, 1, 0), FD(OP_CLOSE, 1, 0),
+		FD(OP_BIN, 1, 126) };
+	for (int r = 1; r <= 4; r <<= 1)
+		for (int i = 0; i < 7; i++)
+			VIOL[NVIOL++] = with(rs[i], r, M, 0);
+	static const int ROP[] = { 3, 0xB, 7, 0xF };
+	for (int k = 0; k < (T ? 4 : 2); k++)
+		for (int fin = 1; fin >= 0; fin--)
+			for (uint32_t l = 0; l < 2; l++)
+				VIOL[NVIOL++] = FD(ROP[k], fin, l);
+	fdesc n16[] = { FD(OP_BIN, 1, 0), FD(OP_BIN, 1, 1), FD(OP_BIN, 1, 125),
+		FD(OP_BIN, 0, 1), FD(OP_CONT, 1, 1), FD(OP_PING, 1, 1),
+		FD(OP_PONG, 1, 0), FD(OP_CLOSE, 1, 2) };
+	for (int i = 0; i < 8; i++)
+		VIOL[NVIOL++] = with(n16[i], 0, M, 1);
+	fdesc n64[] = { FD(OP_BIN, 1, 0), FD(OP_BIN, 1, 125), FD(OP_BIN, 1, 126),
+		FD(OP_CONT, 1, 1), FD(OP_PING, 1, 1), FD(OP_BIN, 1, 65535) };
+	for (int i = 0; i < (T ? 6 : 5); i++)
+		VIOL[NVIOL++] = with(n64[i], 0, M, 2);
+	// control frames above 125 bytes
+	VIOL[NVIOL++] = FD(OP_PING, 1, 126);
+	VIOL[NVIOL++] = FD(OP_PONG, 1, 126);
+	VIOL[NVIOL++] = FD(OP_CLOSE, 1, 126);
+	VIOL[NVIOL++] = FD(OP_PING, 1, 300);
+	// fragmented control frames (treatment not fixed by the statement)
+	VIOL[NVIOL++] = FD(OP_PING, 0, 0);
+	VIOL[NVIOL++] = FD(OP_PING, 0, 1);
+	VIOL[NVIOL++] = FD(OP_PONG, 0, 1);
+	VIOL[NVIOL++] = FD(OP_CLOSE, 0, 0);
+}
+
+static void
+build_seq_cases(ctab *t, int T)
+{
+	fdesc s[MAXF];
+	// every sequence of <= 2 (quick) base shapes; thorough: <= 3 of the 25
+	// small shapes and <= 2 including the 65536-byte shapes
+	for (int a = 0; a < NBASE; a++) {
+		s[0] = BASE[a];
+		ct_seq(t, 1, s);
+		for (int b = 0; b < NBASE; b++) {
+			s[1] = BASE[b];
+			ct_seq(t, 2, s);
+			if (!T || a >= NBASE_SMALL || b >= NBASE_SMALL)
+				continue;
+			for (int c = 0; c < NBASE_SMALL; c++) {
+				s[2] = BASE[c];
+				ct_seq(t, 3, s);
+			}
+		}
+	}
+	// one frame-level violation in context
+	fdesc ctx[4] = { FD(OP_BIN, 1, 1), FD(OP_BIN, 0, 1), FD(OP_CONT, 1, 1),
+		FD(OP_PING, 1, 1) };
+	for (int v = 0; v < NVIOL; v++) {
+		s[0] = VIOL[v];
+		ct_seq(t, 1, s);
+		for (int a = 0; a < (T ? 4 : 2); a++) {
+			s[0] = VIOL[v];
+			s[1] = ctx[a];
+			ct_seq(t, 2, s);
+			s[0] = ctx[a];
+			s[1] = VIOL[v];
+			ct_seq(t, 2, s);
+			if (!T)
+				continue;
+			for (int b = 0; b < 4; b++) {
+				s[0] = VIOL[v];
+				s[1] = ctx[a];
+				s[2] = ctx[b];
+				ct_seq(t, 3, s);
+				s[0] = ctx[a];
+				s[1] = VIOL[v];
+				s[2] = ctx[b];
+				ct_seq(t, 3, s);
+				s[0] = ctx[a];
+				s[1] = ctx[b];
+				s[2] = VIOL[v];
+				ct_seq(t, 3, s);
+			}
+		}
+	}
+	// a 3-part message with a ping and/or a pong at every position
+	static const uint32_t PL[3] = { 1, 125, 126 };
+	for (int pi = -1; pi <= 3; pi++)
+		for (int po = -1; po <= 3; po++) {
+			if (pi < 0 && po < 0)
+				continue;
+			int n = 0;
+			for (int k = 0; k <= 3; k++) {
+				if (pi == k)
+					s[n++] = FD(OP_PING, 1, (uint32_t) (3 + k));
+				if (po == k)
+					s[n++] = FD(OP_PONG, 1, (uint32_t) k);
+				if (k < 3)
+					s[n++] = FD(k == 0 ? OP_BIN : OP_CONT, k == 2, PL[k]);
+			}
+			ct_seq(t, n, s);
+		}
+}
+
+// frame > ws:rxframe-max (100)
+static void
+build_maxframe_cases(ctab *t)
+{
+	static const uint32_t L[] = { 99, 100, 101, 125, 126, 200 };
+	fdesc                 s[MAXF];
+	for (int i = 0; i < 6; i++) {
+		s[0] = FD(OP_BIN, 1, L[i]);
+		ct_seq(t, 1, s);
+		s[1] = FD(OP_BIN, 1, 1);
+		ct_seq(t, 2, s);
+		s[0] = FD(OP_BIN, 1, 1);
+		s[1] = FD(OP_BIN, 1, L[i]);
+		s[2] = FD(OP_BIN, 1, 2);
+		ct_seq(t, 3, s);
+		s[0] = FD(OP_BIN, 0, 1);
+		s[1] = FD(OP_CONT, 1, L[i]);
+		s[2] = FD(OP_BIN, 1, 2);
+		ct_seq(t, 3, s);
+		s[0] = FD(OP_BIN, 0, L[i]);
+		s[1] = FD(OP_CONT, 1, 1);
+		ct_seq(t, 2, s);
+		if (L[i] <= 125) {
+			s[0] = FD(OP_PING, 1, L[i]);
+			s[1] = FD(OP_BIN, 1, 1);
+			ct_seq(t, 2, s);
+		}
+	}
+	// many frames at the limit form a big message (recv-size-max default)
+	s[0] = FD(OP_BIN, 0, 100);
+	s[1] = FD(OP_CONT, 0, 100);
+	s[2] = FD(OP_CONT, 0, 100);
+	s[3] = FD(OP_CONT, 1, 100);
+	ct_seq(t, 4, s);
+}
+
+// message > recv-size-max (200)
+static void
+build_recvmax_cases(ctab *t)
+{
+	fdesc s[MAXF];
+	static const uint32_t P[][4] = { { 200, 0, 0, 0 }, { 201, 0, 0, 0 },
+		{ 100, 100, 0, 0 }, { 100, 101, 0, 0 }, { 126, 74, 0, 0 },
+		{ 126, 74, 1, 0 }, { 67, 67, 67, 0 }, { 66, 67, 67, 0 },
+		{ 199, 1, 0, 0 }, { 199, 2, 0, 0 }, { 0, 200, 1, 0 },
+		{ 125, 75, 0, 1 }, { 65536, 0, 0, 0 } };
+	static const int NP[] = { 1, 1, 2, 2, 3, 3, 3, 3, 2, 2, 3, 4, 1 };
+	for (int i = 0; i < 13; i++) {
+		int n = NP[i];
+		for (int k = 0; k < n; k++)
+			s[k] = FD(k == 0 ? OP_BIN : OP_CONT, k == n - 1, P[i][k]);
+		ct_seq(t, n, s);
+		s[n] = FD(OP_BIN, 1, 3); // a following message
+		ct_seq(t, n + 1, s);
+	}
+	// two messages, each exactly at the limit
+	s[0] = FD(OP_BIN, 1, 200);
+	s[1] = FD(OP_BIN, 1, 200);
+	ct_seq(t, 2, s);
+	s[0] = FD(OP_BIN, 0, 100);
+	s[1] = FD(OP_CONT, 1, 100);
+	s[2] = FD(OP_BIN, 0, 100);
+	s[3] = FD(OP_CONT, 1, 100);
+	ct_seq(t, 4, s);
+}
+
+// control frames between the fragments of a message that is within
+// recv-size-max (200): the control payload is not part of the message
+static void
+build_ctl_in_limit_cases(ctab *t)
+{
+	fdesc s[MAXF];
+	s[0] = FD(OP_BIN, 0, 150);
+	s[1] = FD(OP_PING, 1, 100);
+	s[2] = FD(OP_CONT, 1, 50);
+	ct_seq(t, 3, s);
+	s[0] = FD(OP_BIN, 0, 100);
+	s[1] = FD(OP_PONG, 1, 125);
+	s[2] = FD(OP_CONT, 1, 100);
+	ct_seq(t, 3, s);
+	s[0] = FD(OP_BIN, 0, 199);
+	s[1] = FD(OP_PING, 1, 2);
+	s[2] = FD(OP_CONT, 1, 1);
+	ct_seq(t, 3, s);
+	s[0] = FD(OP_BIN, 0, 100);
+	s[1] = FD(OP_PING, 1, 100);
+	s[2] = FD(OP_CONT, 1, 10);
+	ct_seq(t, 3, s);
+}
+
+static void
+build_cut_cases(ctab *t, int T)
+{
+	fdesc  q[12][MAXF];
+	int    qn[12], nq = 0;
+#define Q1(a)           \
+	do {            \
+		q[nq][0] = a; \
+		qn[nq++] = 1; \
+	} while (0)
+	Q1(FD(OP_BIN, 1, 1));
+	Q1(FD(OP_BIN, 1, 0));
+	Q1(FD(OP_BIN, 1, 125));
+	Q1(FD(OP_BIN, 1, 126));
+	q[nq][0] = FD(OP_BIN, 0, 1);
+	q[nq][1] = FD(OP_CONT, 0, 125);
+	q[nq][2] = FD(OP_CONT, 1, 126);
+	qn[nq++] = 3;
+	q[nq][0] = FD(OP_BIN, 0, 2);
+	q[nq][1] = FD(OP_PING, 1, 5);
+	q[nq][2] = FD(OP_CONT, 1, 3);
+	qn[nq++] = 3;
+	q[nq][0] = FD(OP_PING, 1, 125);
+	q[nq][1] = FD(OP_BIN, 1, 4);
+	qn[nq++] = 2;
+	q[nq][0] = FD(OP_BIN, 1, 3);
+	q[nq][1] = FD(OP_BIN, 1, 4);
+	qn[nq++] = 2;
+	if (T)
+		Q1(FD(OP_BIN, 1, 65536));
+#undef Q1
+	for (int i = 0; i < nq; i++) {
+		wcase w;
+		memset(&w, 0, sizeof(w));
+		w.kind = WK_SEQ;
+		w.nf   = (uint8_t) qn[i];
+		size_t tot = 0;
+		for (int k = 0; k < qn[i]; k++) {
+			w.f[k] = q[i][k];
+			tot += hdr_len(&q[i][k]) + q[i][k].len;
+		}
+		size_t h1 = hdr_len(&w.f[0]);
+		size_t lim = T ? tot - 1 : h1 + 1;
+		if (lim > tot - 1)
+			lim = tot - 1;
+		w.cut2 = -1;
+		for (size_t c = 1; c <= lim; c++) {
+			if (T && tot > 1000 && c > h1 + 8 && c + 8 < tot)
+				continue; // 65536-byte payload: header, both edges
+			w.cut1 = (int32_t) c;
+			ct_add(t, &w);
+		}
+		// two cuts: every pair inside header+1 of the first frame
+		if (T) {
+			size_t l2 = h1 + 1 < tot - 1 ? h1 + 1 : tot - 1;
+			for (size_t c = 1; c <= l2; c++)
+				for (size_t e = c + 1; e <= l2; e++) {
+					w.cut1 = (int32_t) c;
+					w.cut2 = (int32_t) e;
+					ct_add(t, &w);
+				}
+			w.cut2 = -1;
+		}
+	}
+}
+
+static void
+build_send_cases(ctab *t, int T, size_t fragsize)
+{
+	static const uint32_t SZ[] = { 0, 1, 125, 126, 300, 65535, 65536, 65537 };
+	for (int i = 0; i < (T ? 8 : 5); i++) {
+		if (SZ[i] > 1000 && fragsize != DEF && fragsize != 0 && fragsize < 125)
+			continue;
+		for (int p = 0; p < 2; p++) {
+			wcase w;
+			memset(&w, 0, sizeof(w));
+			w.kind     = WK_SEND;
+			w.sendsz   = SZ[i];
+			w.sendping = (uint8_t) p;
+			w.cut1 = w.cut2 = -1;
+			ct_add(t, &w);
+		}
+	}
+}
+
+static void
+build_dialer_cases(ctab *t, int T)
+{
+	fdesc s[MAXF];
+	wcase w;
+	// g_mask_default == 0 here: server -> client frames are unmasked
+	s[0] = FD(OP_BIN, 1, 1);
+	ct_seq(t, 1, s);
+	s[0] = FD(OP_BIN, 0, 1);
+	s[1] = FD(OP_PING, 1, 5);
+	s[2] = FD(OP_CONT, 0, 125);
+	s[3] = FD(OP_PONG, 1, 0);
+	s[4] = FD(OP_CONT, 1, 126);
+	ct_seq(t, 5, s);
+	s[0] = FD(OP_BIN, 1, 126);
+	s[1] = FD(OP_BIN, 1, 0);
+	ct_seq(t, 2, s);
+	// rule violations, each alone, after a message, and before one
+	fdesc v[] = { with(FD(OP_BIN, 1, 4), 0, 1, 0), // MASKED server frame
+		with(FD(OP_PING, 1, 4), 0, 1, 0), with(FD(OP_BIN, 1, 4), 4, 0, 0),
+		with(FD(OP_BIN, 1, 4), 1, 0, 0), FD(3, 1, 4), FD(0xB, 1, 0),
+		with(FD(OP_BIN, 1, 4), 0, 0, 1), with(FD(OP_BIN, 1, 126), 0, 0, 2),
+		FD(OP_PING, 1, 126), FD(OP_CONT, 1, 4) };
+	int nv = (int) (sizeof(v) / sizeof(v[0]));
+	for (int i = 0; i < nv; i++) {
+		s[0] = v[i];
+		s[1] = FD(OP_BIN, 1, 3);
+		ct_seq(t, 2, s);
+		if (!T && i >= 2)
+			continue;
+		s[0] = FD(OP_BIN, 1, 3);
+		s[1] = v[i];
+		s[2] = FD(OP_BIN, 1, 2);
+		ct_seq(t, 3, s);
+	}
+	s[0] = FD(OP_BIN, 0, 4);
+	s[1] = FD(OP_BIN, 1, 4); // new message inside a message
+	ct_seq(t, 2, s);
+	// what the dialer emits
+	static const uint32_t SZ[] = { 0, 1, 125, 126, 300, 65536 };
+	for (int i = 0; i < (T ? 6 : 5); i++) {
+		memset(&w, 0, sizeof(w));
+		w.kind   = WK_SEND;
+		w.sendsz = SZ[i];
+		w.cut1 = w.cut2 = -1;
+		ct_add(t, &w);
+	}
+}
+
+static void
+build_resp_cases(ctab *t, int T)
+{
+	wcase w;
+	memset(&w, 0, sizeof(w));
+	w.nf   = 1;
+	w.f[0] = FD(OP_BIN, 1, 5);
+	w.cut1 = w.cut2 = -1;
+	// the 101 response is 161 bytes long
+	w.kind = WK_RESPCUT;
+	for (int c = 1; c < 161; c += (T ? 1 : 3)) {
+		w.aux = (int16_t) c;
+		ct_add(t, &w);
+	}
+	w.kind = WK_RESPMUT;
+	for (int m = 0; m < NRESP_MUT; m++) {
+		w.aux = (int16_t) m;
+		ct_add(t, &w);
+	}
+}
+
+static void
+build_http_cases(int T)
+{
+	HC = calloc(8000, sizeof(hcase));
+	for (int r = 0; r < 2; r++) {
+		int n = (int) strlen(HREQ[r]);
+		HC[NHC++] = (hcase){ r, -1, -1, NULL, "uncut", "" };
+		for (int c = 1; c < n; c++)
+			HC[NHC++] = (hcase){ r, c, -1, NULL, "1cut", "" };
+		if (T)
+			for (int c = 1; c < n; c += 1)
+				for (int e = c + 1; e < n; e += 3)
+					if (NHC < 7990)
+						HC[NHC++] = (hcase){ r, c, e, NULL, "2cut", "" };
+	}
+	HPER = 16;
+	static const struct {
+		const char *l, *w, *g;
+	} M[] = { { "GET/c16HTTP/1.1", "no spaces", ":no-spaces" },
+		{ "GET /c16HTTP/1.1", "one space only", ":one-space" },
+		{ "GET/c16 HTTP/1.1", "one space only (method glued)", ":one-space" },
+		{ "GET /c16 HTTP/9.9", "bad version", ":bad-version" },
+		{ "GET /c16 http/1.1", "lower-case version", ":bad-version" },
+		{ "GET /c16 HTTP/1.1 x", "junk after the version", ":bad-version" },
+		{ "GET /c16 ", "empty version", ":bad-version" },
+		{ " /c16 HTTP/1.1", "empty method", ":empty-method" },
+		{ "GET  HTTP/1.1", "empty request target", ":empty-target" },
+		{ "GET /c16/a\x01" "b HTTP/1.1", "control character in the URI", ":control-char" },
+		{ "GET /c16/a%zzb HTTP/1.1", "bad percent escape", ":bad-escape" },
+		{ "GET /c16/a%4 HTTP/1.1", "truncated percent escape", ":bad-escape" },
+		{ "GET /c16/%C0%AF HTTP/1.1", "overlong UTF-8 %C0%AF", ":bad-utf8" },
+		{ "GET /c16/%E0%80%AF HTTP/1.1", "overlong UTF-8 %E0%80%AF", ":bad-utf8" },
+		{ "GET /c16/\xc0\xaf HTTP/1.1", "raw overlong UTF-8", ":bad-utf8" },
+		{ "GET /c16/%ED%A0%80 HTTP/1.1", "UTF-8 surrogate", ":bad-utf8" } };
+	NHM = (int) (sizeof(M) / sizeof(M[0]));
+	HM  = calloc((size_t) NHM, sizeof(hcase));
+	for (int i = 0; i < NHM; i++)
+		HM[i] = (hcase){ 0, -1, -1, M[i].l, M[i].w, M[i].g };
+}
+
+// =====================================================================================
+static void
+explore(const char *name, void (*fn)(void *), void *arg, int need_s)
+{
+	if (vx_time_left() < need_s)
+		return;
+	vx_cfg c;
+	memset(&c, 0, sizeof(c));
+	c.prop     = "C16";
+	c.scenario = name;
+	c.run      = fn;
+	c.arg      = arg;
+	for (int i = 0; i < VB_NB; i++)
+		c.budget[i] = 0;
+	c.budget[VB_ENV] = -1;
+	c.total          = 0;
+	c.watchdog_s     = 60;
+	vx_explore(&c, NULL);
+}
+
+int
+main(int argc, char **argv)
+{
+	vx_init(argc, argv, "C16");
+	int T = vx_is_thorough();
+	{ // reference self-test: RFC 6455 1.3 example and RFC 3174 vectors
+		char    acc[40];
+		uint8_t dg[20];
+		ref_ws_accept("dGhlIHNhbXBsZSBub25jZQ==", acc);
+		ref_sha1((const uint8_t *) "abc", 3, dg);
+		if (strcmp(acc, "s3pPLMBiTxaQ9kYGzzhZRbK+xOo=") != 0 || dg[0] != 0xa9 ||
+		    dg[19] != 0x9d) {
+			fprintf(stderr, "reference SHA-1/base64 self-test failed: %s\n", acc);
+			return 2;
+		}
+	}
+	// ---- (a) ----
+	int replaying = 0;
+	for (int i = 1; i < argc; i++)
+		if (strcmp(argv[i], "--replay") == 0)
+			replaying = 1;
+	build_chunk_corpus(T);
+	if (!replaying)
+		ve_run("chunk-streams", NULL, NCS, chunk_test, chunk_desc, 16);
+	vx_note("chunk",
+	    "%zu streams = valid bodies (1-3 chunks, sizes {1,2,15,16,17,255}, "
+	    "hex case, leading zero, chunk-ext, 0-2 trailer lines, max = 4096 / "
+	    "exact fit) + every single mutation (drop each CR, drop each LF, "
+	    "non-hex first/last digit, space before size, 17-digit size, "
+	    "ffffffffffffffff, FFFFFFFFFFFFFFFE, size>max, max=total-1, empty "
+	    "size, wrong CR / LF of each data terminator, data one byte long / "
+	    "short, 0x01 and 0x7f in extension / trailer, truncation); every 0-, "
+	    "1- and 2-cut segmentation of each stream (for streams rejected at "
+	    "offset c cuts are enumerated up to c+3)",
+	    NCS);
+
+	// ---- (b1) listener role ----
+	static lcfg LC[16];
+	int         nl = 0;
+	g_mask_default = 1;
+	build_base(T);
+	build_viol(T);
+	lcfg *c;
+	c = &LC[nl++];
+	*c = (lcfg){ "wsl-seq", DEF, DEF, DEF, { 0 }, 16, NULL };
+	build_seq_cases(&c->t, T);
+	c = &LC[nl++];
+	*c = (lcfg){ "wsl-maxframe100", 100, DEF, DEF, { 0 }, 16, NULL };
+	build_maxframe_cases(&c->t);
+	c = &LC[nl++];
+	*c = (lcfg){ "wsl-recvmax200", DEF, 200, DEF, { 0 }, 16, NULL };
+	build_recvmax_cases(&c->t);
+	c = &LC[nl++];
+	*c = (lcfg){ "wsl-both-limits", 100, 200, DEF, { 0 }, 16, NULL };
+	build_maxframe_cases(&c->t);
+	c = &LC[nl++];
+	*c = (lcfg){ "wsl-ctl-in-limit", DEF, 200, DEF, { 0 }, 1, ":control-in-limit" };
+	build_ctl_in_limit_cases(&c->t);
+	c = &LC[nl++];
+	*c = (lcfg){ "wsl-cut", DEF, DEF, DEF, { 0 }, 16, NULL };
+	build_cut_cases(&c->t, T);
+	static const size_t FR[] = { 1, 125, 126, DEF, 0, 65535 };
+	static const char  *FN[] = { "wsl-send-frag1", "wsl-send-frag125",
+		 "wsl-send-frag126", "wsl-send-default", "wsl-send-unlimited",
+		 "wsl-send-frag65535" };
+	for (int i = 0; i < (T ? 6 : 4); i++) {
+		c  = &LC[nl++];
+		*c = (lcfg){ FN[i], DEF, DEF, FR[i], { 0 }, 4, NULL };
+		build_send_cases(&c->t, T, FR[i]);
+	}
+	long ncl = 0;
+	for (int i = 0; i < nl; i++) {
+		explore(LC[i].name, run_wsl, &LC[i], 20);
+		ncl += LC[i].t.n;
+	}
+	// ---- (b2) dialer role ----
+	static dcfg DC[4];
+	int         nd = 0;
+	g_mask_default = 0;
+	DC[nd]         = (dcfg){ "wsd-default", DEF, { 0 }, 6 };
+	build_dialer_cases(&DC[nd++].t, T);
+	DC[nd] = (dcfg){ "wsd-frag126", 126, { 0 }, 6 };
+	build_dialer_cases(&DC[nd++].t, T);
+	if (T) {
+		DC[nd] = (dcfg){ "wsd-frag1", 1, { 0 }, 6 };
+		build_dialer_cases(&DC[nd++].t, 0);
+	}
+	DC[nd] = (dcfg){ "wsd-response", DEF, { 0 }, 8 };
+	build_resp_cases(&DC[nd++].t, T);
+	long ncd = 0;
+	for (int i = 0; i < nd; i++) {
+		explore(DC[i].name, run_wsd, &DC[i], 20);
+		ncd += DC[i].t.n;
+	}
+	// ---- (c) ----
+	build_http_cases(T);
+	explore("http-segmentation", run_http, (void *) 0, 20);
+	explore("http-request-line", run_http, (void *) 1, 15);
+	vx_note("websocket",
+	    "listener role %ld cases: every sequence of <=%d frames over %d "
+	    "well-formed shapes (op {bin,cont} x FIN x len {0,1,125,126}; ping/pong "
+	    "len {0,1,125}; close len {0,2,125}%s) ; %d single-frame violations "
+	    "(wrong masking on every shape, RSV1/2/3, reserved opcodes, 16-/64-bit "
+	    "length for a shorter payload, control > 125, fragmented control) "
+	    "alone / before / after %d context frames%s; 3-part message with "
+	    "ping/pong at every position; rxframe-max 100 and recv-size-max 200 "
+	    "boundaries; 1 cut at every offset of the first header%s; "
+	    "txframe-max {1,125,126,default%s} x sizes {0,1,125,126,300%s} with "
+	    "and without a racing ping. dialer role %ld cases: upgrade request "
+	    "check, 3 well-formed and 10 violating server->client sequences, "
+	    "emitted sizes, 101 response cut at every %s offset, %d malformed "
+	    "status lines.",
+	    ncl, T ? 3 : 2, NBASE_SMALL, T ? "; 65536-byte data shapes in <=2" : "",
+	    NVIOL, T ? 4 : 2, T ? " in 1-3 frame sequences" : "",
+	    T ? " (thorough: every offset of the sequence and every 2 cuts of the "
+	        "first header)"
+	      : "",
+	    T ? ",unlimited,65535" : "", T ? ",65535,65536,65537" : "", ncd,
+	    T ? "" : "third", NRESP_MUT);
+	vx_note("http",
+	    "GET and POST(5-byte body) with 1 cut at every offset%s (%d cases); %d "
+	    "request-line mutations against an any-method tree handler",
+	    T ? " and 2 cuts (first every offset, second every third)" : "", NHC, NHM);
+	return vx_finish();
 }
